@@ -272,6 +272,9 @@ type Transport struct {
 	buf    [512]byte
 	// Scenario tag mixed into state hashes.
 	Tag string
+	// SleepQuantum, if non-zero, is charged for every back-off sleep instead
+	// of the (jittered, hence nondeterministic) duration the library asked for.
+	SleepQuantum time.Duration
 	// RootKey marks contexts derived from the harness's root context.
 	Closed bool
 }
@@ -406,6 +409,9 @@ func (t *Transport) Sleep(ctx context.Context, d time.Duration) bool {
 	if t.Clock.Expired {
 		t.Clock.SleepsAfterExpiry++
 		return true
+	}
+	if t.SleepQuantum > 0 {
+		d = t.SleepQuantum
 	}
 	t.Clock.Charge(d)
 	return true
